@@ -135,7 +135,8 @@ theorem default_end_eq_last_byte (es : List Emitted) : maxAddr (memMap es) = las
 /-- Full statement, no hypothesis: the image of an accepted program is, offset by offset, the byte of
     the line that covers the address, the fill value where none does; without an explicit end it
     stops at the highest address that received a byte.  (`assembleFast` computes exactly that, line by
-    line; it is what the driver of the correspondence runs.) -/
+    line, with the bytes of each line in an array: `imageFastA_eq`; it is what the driver of the
+    correspondence runs.) -/
 theorem assemble_eq_fast (cfg : Cfg) (files : List (List Stmt)) (start : Int) (stop : Option Int) (fill : Nat) :
     assemble cfg files start stop fill = assembleFast cfg files start stop fill :=
   BV.assemble_eq_fast cfg files start stop fill
@@ -153,7 +154,7 @@ theorem accepted_image_is_spec (cfg : Cfg) (files : List (List Stmt)) (start : I
     simp only [bind, Except.bind] at h
     cases ho : overlapCheck none es with
     | error e => rw [ho] at h; cases h
-    | ok u => rw [ho] at h; cases h; rfl
+    | ok u => rw [ho] at h; cases h; exact imageFastA_eq _ _ _ _
 
 /-- non-vacuity: the line-by-line image of two 4-byte lines, window 2..5 -/
 example : imageFast 2 (some 5) 0 [⟨0, 4, [1, 2, 3, 4], false, true⟩, ⟨4, 4, [5, 6, 7, 8], false, true⟩] = [3, 4, 5, 6] := by
